@@ -9,18 +9,27 @@ CHECKS = {
  "C02": ("exploration", "bounded-exhaustive enumeration of violation sites (witness input, constraint constant, gate wire via hook H1) over the program space, reference-model oracle",
          "For every program of the bounded space and every violation site x delta the real prover is run on the bad assignment and the real verifier must reject whenever the reference constraint system reports a violated constraint or gate.",
          "decides proofs emitted by the real proving code for bad assignments (not arbitrary adversaries); coincidental cancellation with probability ~1/|F| treated as impossible", "4 C02"),
+ "C03": ("exploration", "deviation-bounded exhaustive enumeration (depth 0, 1 and, on the smallest bases, 2) of proof alterations, each judged by the real verifier and by an independent un-batched reference verifier under the recorded challenges",
+         "For every base proof (honest and honest-from-bad-witness) and every deviation of the algebraic alphabet the real verdict must equal the conjunction of (a) non-identity, (b) the committed evaluation relation and (c) the inner-product relation evaluated with explicit round-by-round folding.",
+         "r-weighted batching differs from the separate relations only with probability ~1/|F|; challenges taken from the recorded run", "4 C03"),
  "C04": ("exploration", "deviation-bounded exhaustive enumeration: every single-bit flip and every single algebraic alteration of accepted base proofs, run through the real decoder and verifier",
          "For each accepted base proof (k = 0..3 rounds, one- and two-phase) every bit flip of the encoding, every single-field algebraic deviation, every same-type copy/swap, every round edit and trailing bytes must be rejected at decode or at verify, or decode to the identical proof object.",
          "bases and alphabets as listed in the evidence; 'identical object' = canonical re-encoding equals the original", "4 C04"),
  "C05": ("exploration", "deviation-bounded exhaustive enumeration: every single verifier-side statement/context deviation for every honest base of the program space",
          "For every honest (program, proof) of the bounded program space, every single verifier-side deviation (commitments, constraint constants/coefficients, label, app data changed/removed/inserted at every position, Pedersen bases) is run on the real verifier; it must reject unless the reference model marks the deviation as one of the statement's own don't-cares.",
          "one deviation at a time; bases as listed in the evidence", "4 C05"),
+ "C06": ("model_checking", "monitor automaton of the protocol's transcript order run over the recorded Merlin event trace of every program of the bounded program space (prover and verifier), plus role-synchrony and fork-discipline checks",
+         "Every program of the bounded space is run honestly under the recording Merlin; a monitor automaton with payloads computed from the program, commitments and decoded proof consumes each role's main-transcript events; the two roles' event sequences must be identical; forks only for the prover RNG and the verifier's final batching weight (taken after the last protocol operation); returned transcripts give the same follow-up challenge.",
+         "observation at the Merlin API through the additive recording patch; label strings are pinned by C18", "4 C06"),
  "C07": ("exploration", "exhaustive enumeration of all ordered batches up to a length bound over an instance pool with correlated forgeries, oracle = conjunction of individual real verifications",
          "Every ordered batch (every length, position, size mix) over the pool is run through the real batch_verify and compared with the conjunction of the members' individual verdicts.",
          "batch RNG is a seeded ChaCha; pool and length bound as listed in the evidence", "4 C07"),
  "C08": ("fault_enumeration", "exhaustive enumeration of malformed-input families (shape grid, identity/zero slots, all short strings, all prefixes, per-byte substitutions, length prefixes) executed in isolated child processes with a counting allocator",
          "Every member of the listed hostile-input families is decoded and, if it decodes, verified singly and in three batch arrangements; any unwind, process death or allocation above 8*len+64KiB during decoding is a violation.",
          "inputs outside the listed families are not covered; memory observed via a counting global allocator", "4 C08"),
+ "C09": ("exploration", "bounded-exhaustive program enumeration with an algebraic opening oracle over the recorded prover RNG output (order-agnostic attribution search)",
+         "For every program the prover's RNG output is recovered from the recording; every commitment is opened as known part + one unused draw * B_blinding, masking vectors are recovered from the final inner-product scalars, published blinding scalars recomputed, every draw non-zero / distinct / used exactly once; RNG keying (blinding factors, >= 32 external bytes) observed on the builder; same randomness reproduces the proof, different randomness shares no non-fixed component.",
+         "decides blinding structure, not indistinguishability; full opening only for padded size <= 4", "4 C09"),
  "C10": ("exploration", "exhaustive enumeration of vectors over a small alphabet for n <= 4 and structured vectors up to n = 128, each with every single deviation, against an explicit-folding reference using recorded challenges",
          "Real create + real verify for every case (through the guarded re-export), every verdict compared with an explicit round-by-round folding of the generators under the challenges recorded from the real run; round count, designed identity rejection and must-reject deviations asserted.",
          "scalar table {0,1,rho,dense}; challenge scalar derivation replicated from the recorded 32-byte outputs", "4 C10"),
@@ -33,12 +42,18 @@ CHECKS = {
  "C13": ("exploration", "complete grid enumeration over the value alphabet against a harness-side double-and-add reference",
          "Full (v,r) grid x 3 base pairs x 3 curves; all pairs of pairs for additivity; scalings; Prover::commit on every pair.",
          "group addition/doubling of arkworks trusted; values outside VAL not covered", "4 C13"),
+ "C14": ("other", "finite obligations on the compiled constants plus bounded exhaustive enumerations (structured field set for mul_by_a, scalar-law alphabet pairs, all multiples of r up to the Hasse bound, all trial divisors and Miller-Rabin bases below stated bounds)",
+         "Constants cross-checked between source literals and compiled values; generator on curve; r*G = O; the only multiple of r in the Hasse interval is r (so the order is exactly r); no compositeness witness for q, r below the bounds; mul_by_a compared with COEFF_A*x on a structured set; scalar laws on all alphabet pairs.",
+         "mul_by_a is not compared on the whole field; primality is absence of a witness below the bound, not an unconditional proof; Hasse's theorem", "4 C14"),
  "C15": ("exploration", "exhaustive enumeration of expression trees up to depth 2 over all operator impls, oracle = recursive denotation; accept-at-value and reject-off-value probes through real prove/verify",
          "Every expression tree of the bounded grammar is built with the operator impl its operand types select; constrain(e - den(e)) must prove and verify, constrain(e - (den(e)+delta)) must be rejected.",
          "coefficients limited to {0,-1,2,rho}; fixed 2-gate 2-commitment circuit", "4 C15"),
  "C16": ("model_checking", "explicit-state model checking (stateright BFS) of the abstract allocator, with every model state replayed call-by-call on the real Prover and Verifier",
          "stateright enumerates every call history up to the depth bounds (unmerged tree, and a merged run keyed by the abstract allocator state); each state is re-executed on a real Prover and Verifier (closures inside a real prove/verify) and every returned handle and gate count is compared between the roles and with the abstract allocator; closing probes decide right=out=0 for a gate left open at a phase end.",
          "the abstract allocator is the specification; stateright BFS/visited set trusted", "4 C16"),
+ "C18": ("exploration", "finite recorded fixture set from the reference revision verified on the current tree, plus program-space enumeration of fresh transcript schedules against the recorded label table",
+         "Every recorded fixture (3 curves x 12 circuits, plus 3 x 3 proofs recorded by an unpatched-merlin build of the pinned tree) must be accepted for its statement, rejected for each recorded wrong statement, reproduce the recorded transcript schedule and challenge outputs and re-encode to the recorded bytes; generator and Pedersen-base digests must reproduce; labels and domain separators of fresh runs of every program of the bounded space must equal the recorded table.",
+         "fixtures recorded from pinned tree + hooks + the two fix commits (which do not alter accepted proofs)", "4 C18"),
  "C17": ("exploration", "complete configuration-grid enumeration (gates1 x gates2 x prover capacity x verifier capacity) on the real prove/verify/batch_verify",
          "Every grid point is executed; the insufficient-generators error must appear exactly below the padded threshold, nothing may panic, proof bytes and verdict must not depend on surplus capacity.",
          "grid bounds as stated in the evidence", "4 C17"),
